@@ -74,5 +74,16 @@ CLAIMED.update({
               'CrossHair symbolic execution with symbolic history selectors / step indices (z3)'),
 })
 
+CLAIMED.update({
+    'C18': dict(_c('Bounded model checking of the lowered code: the synchronous string kernels of rbql-js (csv_utils.js, record assembly of rbql_csv.js) are lowered from ESTree to Python on every run, validated against real node, and executed symbolically next to the Python kernels: same fields / warning / quoted text / records / warnings / IO error for every BMP line or file text within bounds; cross-language quote->split round trips.', 'C18',
+                   'Bounds: lines <=4 (quick)/<=6 chars, file texts <=3/5 chars, delimiters , ; TAB SPACE | :: :=), all policies. Trusted: the ESTree->Python translator and JS runtime shim (vf/jslower), validated per run on ~8000 concrete calls + 400 reader cases against real node; counterexamples replayed in real node. Outside: async plumbing, astral characters, file/CLI level, header-inference kernels (lowered and validated, not yet part of the obligations).',
+                   'JS kernels lowered (acorn ESTree -> Python) + CrossHair symbolic execution (z3), differential JS vs Python'), engine='js-lowering+crosshair'),
+    'C20': dict(_c('Bounded model checking of the lowered code: real rbql-js reader methods (process_data_stream_chunk/_end, process_line, record aggregation, get_warnings) driven chunk by chunk on symbolic BYTES (per shard a UTF-8 structure pattern; every chunk boundary incl. inside CRLF and inside multi-byte characters) equal the lowered bulk path; every counterexample replayed in real node over a stream.Readable.', 'C20',
+                   'Bounds: <=4 (quick)/<=6 bytes, <=3 chunks, utf-8 and binary, quoted/quoted_rfc/simple, comment prefix on/off. Buffer/TextDecoder are pure-Python stubs from the WHATWG contract, validated per run against real node. Outside: 64 KiB default chunking, back-pressure, promise queue.',
+                   'JS reader lowered (acorn ESTree -> Python) + CrossHair symbolic execution over symbolic bytes (z3), stream vs bulk'), engine='js-lowering+crosshair'),
+})
+ENGINES.append({'name': 'js-lowering+crosshair', 'path': 'vf/jslower', 'serves_properties': ['C18', 'C20'],
+                'kind_free_text': 'ESTree (acorn bundled with node 20) -> Python source translator + JS runtime shim, regenerated from /repo/rbql-js on every run, validated against real node; lowered code executed symbolically by CrossHair/z3; counterexamples replayed in real node'})
 for k in CLAIMED:
-    ENGINES[0]['serves_properties'].append(k)
+    if k not in ('C18', 'C20'):
+        ENGINES[0]['serves_properties'].append(k)
